@@ -80,6 +80,8 @@ def draw_count(draw, cap, big_ok=True):
     boundaries (99/100/101), 255 or the maximum the field / payload allows."""
     cap = max(0, cap)
     pool = [c for c in COUNT_SMALL if c <= cap]
+    if cap <= 64 and cap not in pool:
+        pool.append(cap)  # the largest count a narrow size field can express is always a candidate
     which = draw(st.integers(0, 9))
     if big_ok and which == 0:
         big = [c for c in COUNT_EDGE if c <= cap] + [cap]
